@@ -246,6 +246,7 @@ _VERSION = itertools.count()
 
 class Tensor:
     __array_priority__ = 2000
+    _version = 0           # bumped by in-place operations (per tensor object; torch shares the counter between a base and its views)
     _conjbit = False       # torch's lazy-conjugation bit: set on the result of conj() of a complex tensor, kept by views/detach, dropped by clone and arithmetic
 
     def is_conj(self):
@@ -679,6 +680,7 @@ def _mk(a, dt, parents=(), view=False):
 
 
 def _check_inplace(t):
+    t._version = t._version + 1
     if t.requires_grad and t.is_leaf and _GRAD_MODE[0]:
         raise RuntimeError('a leaf Variable that requires grad is being used in an in-place operation.')
 
